@@ -622,7 +622,11 @@ func (re *Regexp) GroupNumberFromName(name string) int {
 		return -1
 	}
 
-	// convert to an int if it looks like a number
+	// convert to an int if it looks like a number: the decimal string
+	// of a group number has no leading zeros and is not empty
+	if name == "" || (len(name) > 1 && name[0] == '0') {
+		return -1
+	}
 	result := 0
 	for i := 0; i < len(name); i++ {
 		ch := name[i]
@@ -633,6 +637,10 @@ func (re *Regexp) GroupNumberFromName(name string) int {
 
 		result *= 10
 		result += int(ch - '0')
+		if result >= re.capsize {
+			// out of range (and no overflow for very long digit strings)
+			return -1
+		}
 	}
 
 	// return int if it's in range
